@@ -29,8 +29,8 @@ RULE = ("generated repositories: 2-5 executions over the vh family (top/deep/gua
 ASSUMPTIONS = ["SQLite on both sides", "handles and the single-reduction (evaluation) table are not part of a transfer by "
                "design; they are excluded from the row comparison"]
 
-COMPARED = ["execution", "job", "call_node", "call_edge", "argument", "argument_result", "value", "subvalue", "file",
-            "task", "tag", "tag_edit"]
+COMPARED = ["execution", "job", "call_node", "call_edge", "call_subtree_task", "argument", "argument_result", "value",
+            "subvalue", "file", "task", "tag", "tag_edit"]
 PROGRAMS = ["top", "deep", "guarded", "failing", "pipeline", "mix"]
 
 
@@ -56,27 +56,36 @@ def gen_repo(rnd):
     execs = [[rnd.choice(PROGRAMS), rnd.randint(0, 3), rnd.randint(0, 3)] for _ in range(rnd.randint(2, 5))]
     tagops = [[rnd.choice(["add", "update", "rm", "rmkey"]), rnd.randrange(4), rnd.choice(["k1", "k2"]),
                rnd.choice([1, "v", [1, 2]])] for _ in range(rnd.randint(0, 6))]
-    return {"cfg": cfg, "execs": execs, "tagops": tagops}
+    def ops(lo, hi):
+        return [[rnd.choice(["add", "update", "rm", "rmkey"]), rnd.randrange(4), rnd.choice(["k1", "k2"]),
+                 rnd.choice([1, "v", [1, 2]])] for _ in range(rnd.randint(lo, hi))]
+    execs2 = [[rnd.choice(PROGRAMS), rnd.randint(0, 3), rnd.randint(0, 3)] for _ in range(rnd.randint(0, 2))]
+    return {"cfg": cfg, "execs": execs, "tagops": tagops, "execs2": execs2, "tagops2": ops(1, 5)}
 
 
-def build_repo(spec, path, d):
+def build_repo(spec, path, d, phase=1):
+    """Phase 1 builds the repository; phase 2 adds executions and further tag edits to the same repository (so that a
+    second transfer delivers children of tags and call nodes the destination already holds)."""
+    import sqlalchemy
     hist.reset(spec["cfg"])
     backend = c22.open_backend(path)
     exec_ids, entities = [], []
     try:
-        for prog, x, y in spec["execs"]:
-            key, out, calls, c = hist.run(lambda: expr(prog, x, y, d), backend)
-            ex = c.scheduler.backend and None
-            for jid in c.job_order[:2]:
-                entities.append((TagEntity.Job, jid))
-        rows = backend.session.execute(__import__("sqlalchemy").text("select id from execution order by id")).fetchall()
+        for prog, x, y in spec["execs" if phase == 1 else "execs2"]:
+            hist.run(lambda: expr(prog, x, y, d), backend)
+        rows = backend.session.execute(sqlalchemy.text("select id from execution order by id")).fetchall()
         exec_ids = [r[0] for r in rows]
         for e in exec_ids:
+            for (jid,) in backend.session.execute(sqlalchemy.text(
+                    "select id from job where execution_id=:e order by start_time, id limit 2"), {"e": e}).fetchall():
+                entities.append((TagEntity.Job, jid))
+        for e in exec_ids:
             entities.append((TagEntity.Execution, e))
-        vals = backend.session.execute(__import__("sqlalchemy").text("select value_hash from value order by value_hash limit 2")).fetchall()
+        vals = backend.session.execute(sqlalchemy.text("select value_hash from value order by value_hash limit 2")).fetchall()
         for (v,) in vals:
             entities.append((TagEntity.Value, v))
-        for kind, ei, k, v in spec["tagops"]:
+        entities.sort(key=lambda e: (str(e[0]), e[1]))
+        for kind, ei, k, v in spec["tagops" if phase == 1 else "tagops2"]:
             et, eid = entities[ei % len(entities)]
             if kind == "add":
                 backend.record_tags(et, eid, [(k, v)], new=True)
@@ -117,6 +126,9 @@ def table_rows(path, with_times=True):
         for t in COMPARED:
             cols = [r[1] for r in con.execute('PRAGMA table_info("%s")' % t)]
             cols = [c for c in cols if c != "updated_time"]
+            if t == "call_subtree_task":
+                # owner column first, whatever the declared order
+                cols = sorted(cols, key=lambda c: c != "call_hash")
             out[t] = (cols, [tuple(r) for r in con.execute('select %s from "%s"' % (", ".join('"%s"' % c for c in cols), t))])
     finally:
         con.close()
@@ -174,6 +186,7 @@ def closure(path, roots):
         con.close()
 
 
+SUBTREE_OWNER_COL = 0    # call_subtree_task(call_hash, task_hash); verified against the schema in table_rows()
 PK = {"execution": 0, "job": 0, "call_node": 0, "value": 0, "task": 0, "tag": 0}
 
 
@@ -201,7 +214,7 @@ def compare(ctx, src, dst, roots, wit):
                 ok = False
             ctx.count("closure_records_checked", len(clo[t]))
         # dependent tables: all source rows whose owner is in the closure must be present
-        owner = {"call_edge": ("call_node", 0), "argument": ("call_node", 1), "subvalue": ("value", 1), "file": ("value", 0),
+        owner = {"call_edge": ("call_node", 0), "call_subtree_task": ("call_node", SUBTREE_OWNER_COL), "argument": ("call_node", 1), "subvalue": ("value", 1), "file": ("value", 0),
                  "tag_edit": ("tag", 0)}.get(t)
         if owner:
             need = {repr(r) for r in ra if r[owner[1]] in clo[owner[0]]}
@@ -244,6 +257,27 @@ def run_repo(ctx, rnd, where):
             if n3 != 0 or dbaudit.dump(src) != before:
                 ctx.violation("reverse-transfer-adds-records", "transfer back returned %r / changed the source" % (n3,), wit)
             ctx.count("reverse_transfers")
+        # incremental transfer: the source grows (new executions sharing sub-calls, edits of tags the destination
+        # already holds), then the same roots (or everything) are transferred again
+        if roots is None or rnd.random() < 0.5:
+            exec_ids2 = build_repo(spec, src, d, phase=2)
+            roots2 = None if roots is None else list(roots) + [e for e in exec_ids2 if e not in exec_ids]
+            try:
+                transfer(src, dst, mode, roots2)
+            except Exception as ex:
+                ctx.violation("transfer-raised", "second (incremental) transfer raised %r" % (ex,), wit)
+                return
+            ctx.count("incremental_transfers")
+            compare(ctx, src, dst, roots2 or exec_ids2, dict(wit, phase="incremental"))
+            problems = dbaudit.referential_audit(dst)
+            if problems:
+                ctx.violation("destination-inconsistent", "after the incremental transfer: %s" % problems[:3], wit)
+            snap2 = dbaudit.dump(dst)
+            n4 = transfer(src, dst, mode, roots2)
+            if n4 != 0 or dbaudit.dump(dst) != snap2:
+                ctx.violation("transfer-not-idempotent", "repeated incremental transfer returned %r / changed the destination" % (n4,), wit)
+            before = dbaudit.dump(src)
+            exec_ids = exec_ids2
         superseded = sum(1 for r in before.get("tag", []) if r[-1] == "0")
         if len(exec_ids) >= 2 and (superseded or len(before.get("call_node", [])) < sum(len(e) for e in spec["execs"]) * 3):
             ctx.nontrivial([spec, mode, wit["roots"]])
@@ -300,6 +334,7 @@ def main(ctx):
     ctx.require("rows_compared", 2000)
     ctx.require("cache_clause_checks", 8)
     ctx.require("repos_with_superseded_tags", 3)
+    ctx.require("incremental_transfers", 15)
 
 
 def replay(ctx, witness):
